@@ -149,6 +149,8 @@ def r19_2(ctx, rep):
     co = coroutine_of(fx, ro[0]["id"])
     rep.anchor("receive_one", where(co))
     eng, rows = table(fx, co["id"])
+    # the transient-error classifier, by signature (fn(&io::Error) -> bool in transport::udp), not by name
+    tcls = [f["id"] for f in fx.fns.values() if f["kind"] == "fn" and f.get("inputs") == ["&std::io::Error"] and f.get("output") == "bool" and f["id"].startswith("transport::udp")]
     seen = set()
     for row in rows:
         if row.exit != "return":
@@ -165,8 +167,10 @@ def r19_2(ctx, rep):
                     dec = c[2]
                 elif any("poll" in n or "recv_from" in n for n in calls):
                     io_err = c[2] == "Err"
-            if c[0] == "truth" and c[1][0] == "call" and c[1][1].endswith("is_transient_io_error"):
+            if c[0] == "truth" and c[1][0] == "call" and c[1][1] in tcls:
                 transient = c[2]
+            elif c[0] == "truth" and c[1][0] == "un" and c[1][1] == "Not" and c[1][2][0] == "call" and c[1][2][1] in tcls:
+                transient = not c[2]
         inner = None
         if kind == "Ok":
             p = T.field(t, "0")
